@@ -85,7 +85,7 @@ CHECKS = {
     "C17": dict(
         category="exploration", design_ref="DESIGN.md §2 C17",
         technique="runtime monitor: `units for` replies compared as sets with the registry dump, `factorize` replies multiplied out with an independent dimension algebra, three spellings of every dimensionality compared with each other",
-        text="Exhaustive over every named quantity and every dimensionality occurring in the database, each written as quantity name, as a unit and as a base-unit product, plus random base-unit products: no unit of another dimensionality, no missing non-alias unit, no duplicates, own categories, factorizations that multiply out to X without duplicates, identical answers for all spellings.",
+        text="Exhaustive over every named quantity and every dimensionality occurring in the database, each written as quantity name, as a unit and as a base-unit product, plus random base-unit products with exponents -3..3 and 25..1000 (beyond factorize's 50-factor limit): no unit of another dimensionality, no missing non-alias unit, no duplicates, own categories, factorizations that multiply out to X without duplicates, identical answers for all spellings.",
         note="A factorize request exceeding its watchdog twice is inconclusive here; the alias notion (definition is a bare name) is the registry's."),
     "C15": dict(
         category="exploration", design_ref="DESIGN.md §2 C15",
